@@ -4,9 +4,9 @@ from props import sched_common as sc, sched_oracles as so, c02_flow
 
 PID = 'C02'
 META = {
-    'text': 'Trigger level proved for every engine/state/history over the scheduler model: after a success report every consumer of a new value (children declaring it, feedback consumers) is pending for the affected targets and queued (complete); no other node gains anything (minimal); over histories pending work disappears only by release, by a failed upstream run on that target, or by a rebuild, and appears only by a request, a success report with a new input, or a rebuild naming it. Model tied to schedule.update/organize/complete and Hand._res by step correspondence; oracle evaluated on the implementation around every success reply. End-state clause: modelled end to end (Model/Flow.v = the scheduler model + run ids as organize/rerunid/db.next hand them out + the primary table with the load rule of shelve Interface._load + deterministic algorithms with injective outputs, novelty = blob never stored). Proved (C02_endstate_partial, unbounded): for every task-only engine with one value per algorithm and every history whose change events do not overlap (each arrives at a quiescent pipeline; ticks and runs in any order, every worker succeeding), at quiescence the latest stored content of every (target, value) equals the from-scratch evaluation in level order (eval_topo); freshness is discharged, not assumed. Refuted for overlapping change events (C02_endstate_refuted = open known finding endstate-stale; the witness is replayed through the real scheduler + shelve store on every run and must stay stale).',
-    'note': 'Trusted: Coq kernel; Sched.v + drive_sched.py correspondence (fakes: transports, fsm stub, db stubs, in-memory AE packages); Flow.v + drive_flow.py correspondence (real scheduler, farm.dispatch, worker.Context.run, shelve store in a temp dir; fakes: in-memory AE packages whose run() stores a canonical text of what was loaded, socket hop, lock stubs, fsm stub, digest programs after the first real calls). Partial: end-state theorem only for non-overlapping change events, task-only engines with one value per algorithm (no value-level fan-out, feedback, analyses, regressions), no worker failures; worker hand-out and the archive trigger are outside Flow.v; promotion engine off; timer-driven requests are modelled in C20. Each end-to-end history costs seconds on the real store: quick = witness + 1 directed + 3 generated histories, thorough = 26.',
-    'technique': 'Coq proof over hand-written executable models (invariant over all non-overlapping histories for the end state) + model/implementation correspondence (step level for the scheduler; whole histories through the real store for the end state) + implementation-side oracles',
+    'text': 'Trigger level proved for every engine/state/history over the scheduler model: after a success report every consumer of a new value (children declaring it, feedback consumers) is pending for the affected targets and queued (complete); no other node gains anything (minimal); over histories pending work disappears only by release, by a failed upstream run on that target, or by a rebuild, and appears only by a request, a success report with a new input, or a rebuild naming it. Model tied to schedule.update/organize/complete and Hand._res by step correspondence; oracle evaluated on the implementation around every success reply. End-state clause: modelled end to end (Model/Flow.v = the scheduler model + run ids as organize/rerunid/db.next hand them out + the primary table with the load rule of shelve Interface._load + deterministic algorithms with injective outputs, novelty = blob never stored; Model/Flow2.v adds FAILED runs: the algorithm raises before it updates its data set, Hand._res -> complete -> purge, and a ghost list of withdrawn units). Proved, unbounded, for every history whose change events do not overlap (each arrives at a quiescent pipeline; ticks, successful and failed runs of any waiting message in any order): C02_endstate_partial (task-only engines, one value per algorithm, every worker succeeding: at quiescence the latest stored content of every (target, value) equals the from-scratch evaluation in level order, eval_topo; freshness discharged, not assumed); C02_endstate_failures_partial (same engines, workers may FAIL: every (target, algorithm) with no withdrawn unit upstream along declared inputs, itself included, holds eval_topo; every unit holds what its algorithm computes from the latest stored content of its inputs or has a withdrawn unit upstream; a withdrawn unit holds what it held when it was withdrawn; withdrawn = reached by the purge of a failed run and no successful run since; without failures the statement is C02_endstate_partial: C02_failures_extend_flow); C02_endstate_mv_partial / C02_endstate_mv_nofail_partial (the same two statements for engines whose algorithms produce SEVERAL values and whose children declare only some of them, class flow_ok_mv, which contains the single-value class: C02_flow_ok_is_mv). Refuted for overlapping change events (C02_endstate_refuted = open known finding endstate-stale; the witness is replayed through the real scheduler + shelve store on every run and must stay stale).',
+    'note': 'Trusted: Coq kernel; Sched.v + drive_sched.py correspondence (fakes: transports, fsm stub, db stubs, in-memory AE packages); Flow.v/Flow2.v + drive_flow.py correspondence (real scheduler, farm.dispatch, worker.Context.run, Hand._res, shelve store in a temp dir; fakes: in-memory AE packages whose run() stores a canonical text of what was loaded or raises on a fail event, the worker main loop that turns the exception into a suc=False reply as pl/worker/cluster.py does, socket hop, lock stubs, fsm stub, digest programs after the first real calls). Partial: end-state theorems only for non-overlapping change events and task-only engines (no feedback, analyses, regressions); a failure is an algorithm raising BEFORE its data set is updated (a failure after a partial update is outside); in the model every value of an algorithm is computed from all its declared inputs, so a re-run reports all its values new: value-level fan-out enters the end-state theorem as "a child is re-run iff it declares one of the values of the re-run algorithm" (a report flagging only some values new is covered at trigger level only); worker hand-out and the archive trigger are outside Flow.v; promotion engine off; timer-driven requests are modelled in C20. Each end-to-end history costs seconds on the real store: quick = witness + 2 directed + 3 generated histories + 3 directed and 2 generated histories with failed runs + 1 generated on a multi-value engine (12), thorough = 55.',
+    'technique': 'Coq proof over hand-written executable models (invariants FInv / FInv2 / FInv3 over all non-overlapping histories for the end state, the latter two with failed runs and a ghost list of withdrawn units) + model/implementation correspondence (step level for the scheduler; whole histories through the real store for the end state) + implementation-side oracles',
 }
 
 
@@ -25,7 +25,7 @@ def nontrivial(r):
 def run(ctx):
     sc.sched_check(
         ctx, so.c02, ['sched', 'mixed'], nontrivial,
-        rule='TRIGGER LEVEL: random acyclic engines with value-level input declarations (refs at alg/sv/value level, feedback) x random histories; success replies flag a random subset of the outputs new. Non-trivial = a success reply carried >= 1 new value consumed by >= 1 child while >= 1 other child consumes none of the new values. END STATE: the witness of C02_endstate_refuted, a directed overlap history and generated histories (change events / ticks / runs of any waiting message; non-overlapping and overlapping) on four task engines, run end to end through the real scheduler, farm.dispatch, worker.Context.run and shelve store; non-trivial = >= 2 change events and >= 4 runs through the real store, ending quiescent')
+        rule='TRIGGER LEVEL: random acyclic engines with value-level input declarations (refs at alg/sv/value level, feedback) x random histories; success replies flag a random subset of the outputs new. Non-trivial = a success reply carried >= 1 new value consumed by >= 1 child while >= 1 other child consumes none of the new values. END STATE: the witness of C02_endstate_refuted, a directed overlap history and generated histories (change events / ticks / runs of any waiting message; non-overlapping and overlapping) on six task engines (two with several values per algorithm), with successful and FAILED runs, run end to end through the real scheduler, farm.dispatch, worker.Context.run, Hand._res and shelve store; non-trivial = >= 2 change events and >= 4 runs through the real store, ending quiescent; a failure history is non-trivial when a failed run withdrew a unit other than the failed one')
     # end-state clause: Model/Flow.v against the real scheduler + store
     for rel, names in [('Python/dawgie/db/shelve/model.py', ['Interface._load', 'Interface._update']),
                        ('Python/dawgie/db/util/__init__.py', ['move', 'encode']),
